@@ -58,8 +58,82 @@ def strip_comments(text):
     return ''.join(out)
 
 
+class LineCov:
+    """Which lines of /repo/soupsieve/*.py (inside functions) the check executed IN THIS PROCESS — a measure of what the
+    generated inputs reached in the real code (sys.monitoring, each location reported once, so the cost is negligible).
+    Library code run in subprocesses (import-order runs, cross-process pickling) is not counted."""
+
+    def __init__(self, repo):
+        self.root = os.path.realpath(os.path.join(repo, 'soupsieve')) + os.sep
+        self.hit = {}
+        self.ok = False
+        mon = getattr(sys, 'monitoring', None)
+        if mon is None:
+            return
+        try:
+            mon.use_tool_id(mon.COVERAGE_ID, 'soupverif')
+        except ValueError:
+            return
+        root, hit = self.root, self.hit
+
+        def on_line(code, line):
+            fn = code.co_filename
+            if fn.startswith(root):
+                hit.setdefault(fn, set()).add(line)
+            return mon.DISABLE
+        mon.register_callback(mon.COVERAGE_ID, mon.events.LINE, on_line)
+        mon.set_events(mon.COVERAGE_ID, mon.events.LINE)
+        self.ok = True
+
+    @staticmethod
+    def _function_lines(path):
+        lines = set()
+        try:
+            top = compile(open(path, encoding='utf-8').read(), path, 'exec')
+        except Exception:
+            return lines
+        stack = [top]
+        while stack:
+            co = stack.pop()
+            for c in co.co_consts:
+                if hasattr(c, 'co_code'):
+                    stack.append(c)
+            if co.co_flags & 0x1:          # CO_OPTIMIZED: a function body (not a module or class body)
+                first = co.co_firstlineno
+                lines.update(l for _, _, l in co.co_lines() if l is not None and l != first)
+        return lines
+
+    @staticmethod
+    def _ranges(nums):
+        out, nums = [], sorted(nums)
+        i = 0
+        while i < len(nums):
+            j = i
+            while j + 1 < len(nums) and nums[j + 1] <= nums[j] + 1:
+                j += 1
+            out.append(str(nums[i]) if i == j else f'{nums[i]}-{nums[j]}')
+            i = j + 1
+        return ','.join(out)
+
+    def report(self):
+        if not self.ok:
+            return {'available': False}
+        rep = {}
+        import glob
+        for path in sorted(glob.glob(self.root + '*.py')):
+            ex = self._function_lines(path)
+            if not ex:
+                continue
+            got = self.hit.get(path, set()) & ex
+            rep[os.path.basename(path)] = {'function_lines': len(ex), 'executed': len(got),
+                                           'executed_ranges': self._ranges(got),
+                                           'not_executed': self._ranges(ex - got)[:1500]}
+        return rep
+
+
 class Check:
-    def __init__(self, pid, tier, seed):
+    def __init__(self, pid, tier, seed, keep_replays=False):
+        self.linecov = LineCov(REPO)
         self.pid = pid
         self.tier = tier
         self.seed = seed
@@ -76,7 +150,8 @@ class Check:
         os.makedirs(os.path.join(ROOT, 'evidence'), exist_ok=True)
         os.makedirs(os.path.join(ROOT, 'replays'), exist_ok=True)
         import glob
-        for old in glob.glob(os.path.join(ROOT, 'replays', f'{pid}_*.json')):
+        # a fresh run starts from an empty replay set; `--replay <file>` must not delete the file it is about to read
+        for old in ([] if keep_replays else glob.glob(os.path.join(ROOT, 'replays', f'{pid}_*.json'))):
             try:
                 os.remove(old)
             except OSError:
@@ -182,6 +257,7 @@ class Check:
         cov.update(self.coverage)
         if extra:
             cov.update(extra)
+        cov['source_lines_executed_in_process'] = self.linecov.report()
         if not cov.get('obligations') or not cov.get('discharged'):
             cov['theorems_registered'] = cov.pop('obligations', 0)
             cov['theorems_discharged'] = cov.pop('discharged', 0)
